@@ -16,8 +16,17 @@ func init() {
 					{Fn: "Harness_C17_results_k4", Tiers: "thorough", Reach: []string{"end"}, Bounds: "root + 4 objects, uses out-degree <= 2, all 24 numberings"},
 					{Fn: "Harness_C17_merge_k4", Tiers: "thorough", Reach: []string{"end"}, Bounds: "root + 4 objects through Merge, uses out-degree <= 2"},
 				},
+			}, {
+				PkgPath: "honnef.co/go/tools/lintcmd", PkgDir: "lintcmd", PkgName: "lintcmd",
+				Files: []string{"variants.go"},
+				Entries: []Entry{
+					{Fn: "Harness_C17_variants_211", Tiers: "both", Reach: []string{"end"}, Bounds: "2 packages, 2+1 variants, 1 object listing per variant; symbolic line (1..2), name byte, file base byte, ObjectPath package, used/unused/absent, U1000 enabled per package"},
+					{Fn: "Harness_C17_variants_221", Tiers: "both", Reach: []string{"end"}, Bounds: "2 packages, 2+2 variants, 1 object listing per variant; ObjectPath package present for all or for none"},
+					{Fn: "Harness_C17_variants_212", Tiers: "thorough", Reach: []string{"end"}, Bounds: "2 packages, 2+1 variants, 2 object listings per variant; ObjectPath package present for all or for none"},
+				},
 			}},
 			Assumptions: []string{
+				"variants clause: the runner (package loading, analysis, gob result files) is replaced by stubs returning the symbolic per-variant unused.Result lists; only (*linter).lint's merge is executed",
 				"ownership is acyclic (colorAndQuieten recurses over owns without a visited set)",
 				"graph level only: the construction of the graph from syntax (file/declaration order) is outside the claim",
 			},
